@@ -1,7 +1,7 @@
 """C12 — Chebyshev interpolation (structural clauses)."""
 import ast
 
-from .. import model, rules_api, paths
+from .. import model, rules_api, paths, specs
 from .common import sweep, check_tt_returns, decided_split, pre, S_RULES, \
     modes_from
 from ..poly import Poly
@@ -161,6 +161,29 @@ def check(an, rep, tier):
                             'differentiation matrix is homogeneous of degree '
                             '%s in the box length, expected %s' % (k + 1, deg,
                                                                    want))
+    from .. import interp as _interp
+    from ..values import INT as _INT
+    import re as _re
+    seen = {}
+    for mm in (2, 3, 5):
+        I_ = _interp.Interp(prog, {})
+        I_.run_function(prog.func('func.func_basis'),
+                        {'X': specs.build('f[m]', 'X', 2), 'm': _INT(mm)})
+        seen[mm] = [s for s in I_.sites if s.rule == 'S-store' and
+                    s.where == 'func.func_basis' and
+                    _re.match(r'^\w+\[1\b', s.construct.replace(' ', ''))]
+    if not seen[5]:
+        rep.error('func.func_basis: the store of the linear term (row 1 of '
+                  'the basis array) was not found for m = 5')
+    else:
+        for mm in (2, 3):
+            rep.add('F-basis-init', 'func.func_basis', 'the linear term '
+                    '(row 1) is stored for m = %d' % mm,
+                    'ok' if seen[mm] else 'violation',
+                    '' if seen[mm] else 'for a basis of size %d the linear '
+                    'term T_1 = x is never stored (it is for m = 5): the '
+                    'function returns before it' % mm)
+    rep.floor('F-basis-init', 2, 'basis initialisation')
     _two_sided(prog, rep, 'func.func_get')
     _two_sided(prog, rep, 'func_full.func_get_full')
 
